@@ -1396,6 +1396,7 @@ void reb_simulation_rescale_var(struct reb_simulation* const r){
 int reb_simulation_add_variation_1st_order(struct reb_simulation* const r, int testparticle){
     r->N_var_config++;
     r->var_config = realloc(r->var_config,sizeof(struct reb_variational_configuration)*r->N_var_config);
+    memset(&(r->var_config[r->N_var_config-1]), 0, sizeof(struct reb_variational_configuration)); // written to binary files and compared: no uninitialised members
     r->var_config[r->N_var_config-1].sim = r;
     r->var_config[r->N_var_config-1].order = 1;
     int index = r->N;
@@ -1420,6 +1421,7 @@ int reb_simulation_add_variation_1st_order(struct reb_simulation* const r, int t
 int reb_simulation_add_variation_2nd_order(struct reb_simulation* const r, int testparticle, int index_1st_order_a, int index_1st_order_b){
     r->N_var_config++;
     r->var_config = realloc(r->var_config,sizeof(struct reb_variational_configuration)*r->N_var_config);
+    memset(&(r->var_config[r->N_var_config-1]), 0, sizeof(struct reb_variational_configuration));
     r->var_config[r->N_var_config-1].sim = r;
     r->var_config[r->N_var_config-1].order = 2;
     int index = r->N;
